@@ -24,6 +24,38 @@ pub fn plan() -> Plan {
         soft_s: (27, 420),
         exhaustive: None,
         min_evaluations: 200,
+        extra: Some(miri_extra),
+    }
+}
+
+/// thorough tier: the unit-level monitor at small sizes under Miri (UB / data races in the aHash fallback and atomics)
+fn miri_extra(tier: &str, seed: u64, sh: &mut Shard) {
+    if tier != "thorough" {
+        return;
+    }
+    let script = crate::evidence::verif_root().join("tools").join("miri_c10.sh");
+    let out = std::process::Command::new(&script).arg((seed % 1000).to_string()).arg("10").output();
+    match out {
+        Ok(o) => {
+            let text = format!("{}{}", String::from_utf8_lossy(&o.stdout), String::from_utf8_lossy(&o.stderr));
+            if let Some(l) = text.lines().find(|l| l.starts_with("MIRI_C10 ok")) {
+                for kv in l.split_whitespace().skip(2) {
+                    if let Some((k, v)) = kv.split_once('=') {
+                        sh.add(&format!("miri_{}", k), v.parse().unwrap_or(0));
+                    }
+                }
+                sh.add("miri_runs_clean", 1);
+            } else if text.contains("Undefined Behavior") || text.contains("Data race") || text.contains("panicked") {
+                let first = text.lines().find(|l| l.contains("Undefined Behavior") || l.contains("Data race") || l.contains("panicked")).unwrap_or("");
+                let path = crate::evidence::verif_root().join("replays").join("C10-miri.log");
+                let _ = std::fs::create_dir_all(path.parent().unwrap());
+                let _ = std::fs::write(&path, &text);
+                sh.violations.push(crate::evidence::Violation { sig: "C10/miri-report".into(), detail: first.to_string(), replay: path.to_string_lossy().to_string() });
+            } else {
+                sh.notes.push(format!("Miri run inconclusive (exit {:?}): {}", o.status.code(), text.lines().last().unwrap_or("")));
+            }
+        }
+        Err(e) => sh.notes.push(format!("Miri run could not be started: {}", e)),
     }
 }
 
